@@ -108,7 +108,7 @@ func fvals(as ...Arch) VL {
 	return l
 }
 
-func genSel(r *RNG, a Arch, other Arch) VL {
+func c19GenSel(r *RNG, a Arch, other Arch) VL {
 	sel := VL{}
 	seen := map[string]bool{}
 	add := func(c cid.Cid) {
@@ -192,22 +192,22 @@ func c19Archive(c *Ctx, r *RNG, a, b, d Arch) {
 	emitCli(c, "getblock", VL{VB(genBlock(r, genOpts{maxData: 16}).Cid.Bytes())}, one, ex, nt)
 	// car filter
 	none := VT("none")
-	emitCli(c, "filter", VL{genSel(r, a, b), VN(0), VN(2), VN(0)}, VL{VB(a.file), none}, ex, nt)
-	emitCli(c, "filter", VL{genSel(r, a, b), VN(0), VN(1), VN(0)}, VL{VB(a.file), none}, ex, nt)
-	emitCli(c, "filter", VL{genSel(r, a, b), VN(1), VN(uint64(1 + r.Intn(2))), VN(0)}, VL{VB(a.file), VB(b.file)}, ex, nt)
+	emitCli(c, "filter", VL{c19GenSel(r, a, b), VN(0), VN(2), VN(0)}, VL{VB(a.file), none}, ex, nt)
+	emitCli(c, "filter", VL{c19GenSel(r, a, b), VN(0), VN(1), VN(0)}, VL{VB(a.file), none}, ex, nt)
+	emitCli(c, "filter", VL{c19GenSel(r, a, b), VN(1), VN(uint64(1 + r.Intn(2))), VN(0)}, VL{VB(a.file), VB(b.file)}, ex, nt)
 	if r.Chance(10) {
-		emitCli(c, "filter", VL{genSel(r, a, b), VN(0), VN(3), VN(0)}, VL{VB(a.file), none}, VL{}, false)
+		emitCli(c, "filter", VL{c19GenSel(r, a, b), VN(0), VN(3), VN(0)}, VL{VB(a.file), none}, VL{}, false)
 	}
 	// --append onto an existing archive b (resumable only when b is a CARv2 without data padding)
 	if b.ver == 2 && b.dpad == 0 {
-		emitCli(c, "filter", VL{genSel(r, a, d), VN(uint64(r.Intn(2))), VN(2), VN(1)}, VL{VB(a.file), VB(b.file)}, VL{a.desc(), b.desc()}, nt)
+		emitCli(c, "filter", VL{c19GenSel(r, a, d), VN(uint64(r.Intn(2))), VN(2), VN(1)}, VL{VB(a.file), VB(b.file)}, VL{a.desc(), b.desc()}, nt)
 		c.Count("flags:filter-append-resumable")
 	} else if r.Chance(50) {
-		emitCli(c, "filter", VL{genSel(r, a, d), VN(0), VN(2), VN(1)}, VL{VB(a.file), VB(b.file)}, VL{}, false)
+		emitCli(c, "filter", VL{c19GenSel(r, a, d), VN(0), VN(2), VN(1)}, VL{VB(a.file), VB(b.file)}, VL{}, false)
 		c.Count("flags:filter-append-refused")
 	}
 	if r.Chance(10) {
-		emitCli(c, "filter", VL{genSel(r, a, d), VN(0), VN(uint64(1 + r.Intn(2))), VN(1)}, VL{VB(a.file), none}, VL{}, false)
+		emitCli(c, "filter", VL{c19GenSel(r, a, d), VN(0), VN(uint64(1 + r.Intn(2))), VN(1)}, VL{VB(a.file), none}, VL{}, false)
 	}
 	// car concat
 	concat := func(ver uint64, as ...Arch) {
@@ -282,7 +282,7 @@ func c19Malformed(c *Ctx, r *RNG, a Arch) {
 	emitCli(c, "index", VL{VN(1), VN(2)}, files, VL{}, false)
 	emitCli(c, "indexcreate", VL{VN(0)}, files, VL{}, false)
 	emitCli(c, "getblock", VL{VB(pick(r, a.blks).Cid.Bytes())}, files, VL{}, false)
-	emitCli(c, "filter", VL{genSel(r, a, a), VN(0), VN(2), VN(0)}, VL{VB(f), VT("none")}, VL{}, false)
+	emitCli(c, "filter", VL{c19GenSel(r, a, a), VN(0), VN(2), VN(0)}, VL{VB(f), VT("none")}, VL{}, false)
 	emitCli(c, "concat", VL{VN(1)}, VL{VB(f), VB(a.file)}, VL{}, false)
 }
 
